@@ -237,6 +237,36 @@ def r3(ctx, cfg):
         base = base[1]
         while base[0] == "vp":
             base = base[2]
+    if not (base[0] == "bound" and base[1] == "elem"):
+        # the event built anew instead of updated in place:
+        #     Event::new(format!("wasm-{}", ev.ty)).add_attributes(once(mock_wasmd_attr(CONTRACT_ATTR, contract)).chain(ev.attributes))
+        lit, attrs, bulk = parse_event(e)
+        if lit is not None and not attrs and len(bulk) == 1:
+            def is_elem(o):
+                o = peel(o)
+                return o[0] == "bound" and o[1] == "elem"
+            ac = pipeline.iter_contribs(P, F, g, bulk[0])
+            ok = len(ac) == 2 and ac[0].kind == "single" and not ac[0].conds and ac[1].kind == "all-of" and not ac[1].conds and not ac[1].adapters
+            d = [(c.kind, fmt(c.expr)[:60] if c.expr is not None else None) for c in ac]
+            if ok:
+                val = peel(ac[0].expr)
+                src = peel(ac[1].src)
+                ok = val[0] == "call" and val[1].endswith("mock_wasmd_attr") and peel(val[2][0]) == CONTRACT_ATTR and is_param(val[2][1], "contract") and \
+                    src[0] == "field" and src[2] == "attributes" and is_elem(src[1])
+            ctx.ob(R, g.key, "returns-the-event", True, "-", fn=g, sample="a new event made from the element's type and attributes")
+            ctx.ob(R, g.key, "contract-address-inserted-first", ok,
+                   "the new event's attributes must be (_contract_address, contract) followed by all of the element's attributes; found %s" % (d,), fn=g,
+                   sample="once(contract attribute).chain(ev.attributes)")
+            fp = format_parts(P, g, lit)
+            okt = fp is not None
+            d = "not a format!() result"
+            if okt:
+                tpl, fargs = fp
+                d = "template %r args %s" % (tpl, [fmt(a)[:40] for k, a in fargs])
+                okt = tpl == "\x05wasm-\xc0\x00" and len(fargs) == 1 and fargs[0][0] == "display" and \
+                    contains(fargs[0][1], lambda x: x[0] == "field" and x[2] == "ty" and is_elem(x[1]))
+            ctx.ob(R, g.key, "type-renamed-wasm-prefix", okt, "the new event's type must be format!(\"wasm-{}\", ev.ty); found %s" % d, fn=g, sample=d)
+            return
     ctx.ob(R, g.key, "returns-the-event", base[0] == "bound" and base[1] == "elem", "the stored event is %s" % fmt(e)[:100],
            fn=g, sample="the element itself, updated in place")
     tys = [v for pth, v in updates if pth == ("ty",)]
@@ -353,7 +383,34 @@ def r4(ctx, cfg):
     while o[0] == "vp":
         o = o[2]
     cases = []
-    if o[0] == "agg" and o[1].startswith("executor::AppResponse"):
+    if o[0] == "multi":
+        # the whole response is the accumulator of the fold: `try_fold(response, |AppResponse { events, data }, m| .. Ok(AppResponse { events, data: .. }))` -
+        # it starts as the argument and every step rebuilds it from the previous one
+        e_ok = True
+        n_init = n_step = 0
+        for alt in o[1]:
+            a0 = alt
+            while a0[0] == "vp":
+                a0 = a0[2]
+            if a0[0] == "ok":          # (the step's own `Ok(..)` seen through the loop)
+                a0 = a0[1]
+                while a0[0] == "vp":
+                    a0 = a0[2]
+            if is_param(a0, "response"):
+                n_init += 1
+                cases.append((("field", ("param", 0, "response"), "data"), [], None))
+            elif a0[0] == "agg" and a0[1].startswith("executor::AppResponse"):
+                n_step += 1
+                dd = dict(a0[2])
+                e_ok = e_ok and contains(dd["events"], lambda x: x[0] == "field" and x[2] == "events" and
+                                         (is_param(x[1], "response") or contains(x[1], lambda y: y[0] == "cycle")))
+                cases.append((dd["data"], [], None))
+            elif a0[0] == "cycle":
+                continue
+            else:
+                e_ok = False
+        e_ok = e_ok and n_init == 1 and n_step >= 1
+    elif o[0] == "agg" and o[1].startswith("executor::AppResponse"):
         dd = dict(o[2])
         e_ok = contains(dd["events"], lambda x: x[0] == "field" and x[2] == "events" and is_param(x[1], "response"))
         lx = q.local_of_operand(st["rv"]["ops"][0])
@@ -496,77 +553,64 @@ def r6(ctx, cfg):
             o = peel(o[1])
         return o[0] == "ok" and peel(o[1])[0] == "call" and peel(o[1])[1] == PR
 
-    # Execute and Migrate arms: x.data = encode_response_data(x.data); Ok(x)
+    # Execute and Migrate arms: the returned response is the processed one with its data wrapped exactly once in the execute-response
+    # envelope when there is data, and without data otherwise.  The private helper `encode_response_data` is always spliced
+    # (vlib/inline.py ALWAYS_INLINE), so the statement is about the value that is returned - whether the helper exists, was
+    # inlined by hand, or the wrapping moved into a `with_encoded_data(response)` helper:
+    #     data = match processed.data { Some(d) => Some(encode(ExecuteResponse { data: d.to_vec() })), None => None }
     key = W + "execute_wasm"
     f = ctx.need_fn(R, key)
     if f is not None:
-        enc = q.calls(f, "wasm::encode_response_data")
-        ctx.ob(R, key, "two-encode_response_data-sites", len(enc) == 2, "expected 2 encode_response_data sites (Execute, Migrate), found %d" % len(enc),
-               fn=f, sample="2")
-        for bid, t in enc:
-            args = P.call_args(f, t, bid)
-            a = peel(args[0])
-            ok = any(x[0] == "field" and x[2] == "data" and is_ok_pr(x[1]) for x in alts(a))
-            ctx.ob(R, key, "encode-wraps-processed-data@%d" % t["line"], ok, "encode_response_data receives %s" % fmt(a)[:120], fn=f,
-                   line=t["line"], sample="encode_response_data(ok(process_response(..)).data)")
-            # its result becomes the data of the same response: `x.data = encode(x.data)` or `AppResponse { events, data: encode(data) }`
-            dst = t["dst"]
-            ok = bool(dst["p"]) and dst["p"][-1].get("name") == "data" and is_ok_pr(P.local(f, dst["l"], (bid, "t")))
-            if not ok:
-                # through a temporary
-                ok = any(st["k"] == "assign" and st["dst"]["p"] and st["dst"]["p"][-1].get("name") == "data"
-                         and is_ok_pr(P.local(f, st["dst"]["l"], (b2, i2)))
-                         and contains(P.rvalue(f, st["rv"], (b2, i2)), lambda x: x[0] == "call" and x[1] == "wasm::encode_response_data")
-                         for b2, i2, st in f.stmts())
-            if not ok:
-                ok = any(_rebuilt_with(P, f, b2, i2, st, is_ok_pr, "wasm::encode_response_data", (f.key, bid)) for b2, i2, st in f.stmts())
-            ctx.ob(R, key, "encoded-data-stored-back@%d" % t["line"], ok, "result of encode_response_data is not stored into the response's data",
-                   fn=f, line=t["line"], sample="x.data = encode_response_data(x.data)")
-        # every Ok(..) returned by execute_wasm whose payload is a processed response had its data rewritten
+        def wrapped(dv, proc):
+            al = [peel(x) for x in alts(peel(dv))]
+            somes = [x for x in al if x[0] == "agg" and x[1].endswith("Option::Some")]
+            nones = [x for x in al if x[0] == "agg" and x[1].endswith("Option::None")]
+            if len(al) != 2 or len(somes) != 1 or len(nones) != 1:
+                return False
+            pay = somes[0][2][0][1]
+            envs = []
+            contains(pay, lambda x: envs.append(x) if (x[0] == "agg" and x[1].startswith("wasm::ExecuteResponse")) else False)
+            # wrapped exactly once (the same envelope may be mentioned twice: `with_capacity(env.encoded_len())` and `env.encode(..)`)
+            if len({repr(deep_peel(x)) for x in envs}) != 1 or any(contains(dict(x[2]).get("data", ("?",)), lambda y: y[0] == "agg" and y[1].startswith("wasm::ExecuteResponse")) for x in envs):
+                return False
+            inner = dict(envs[0][2]).get("data", ("?",))
+            from_proc = contains(inner, lambda x: x[0] == "some" and peel(x[1])[0] == "field" and peel(x[1])[2] == "data" and same_origin(peel(x[1])[1], proc)) and \
+                not contains(inner, lambda x: x[0] == "agg" and x[1].startswith(("wasm::ExecuteResponse", "wasm::InstantiateResponse")))
+            encoded = contains(pay, lambda x: (x[0] == "call" and x[1].startswith("prost::Message::encode")) or
+                               (x[0] == "mutby" and x[1].startswith("prost::Message::encode")))
+            return from_proc and encoded
         n = 0
         for val0, conds0, site0 in q.value_cases(P, f, 0):
             bid, i = site0
-            if i == "t":
+            o = peel(val0)
+            if not (o[0] == "agg" and o[1].endswith("Result::Ok")):
                 continue
-            st = f.blocks[bid]["stmts"][i]
-            if True:
-                o = peel(val0)
-                if o[0] == "agg" and o[1].endswith("Result::Ok"):
-                    pay = peel(o[2][0][1])
-                    if pay[0] == "agg" and pay[1].startswith("executor::AppResponse"):
-                        dd = dict(pay[2])
-                        ev, dv = peel(dd.get("events", ("?",))), peel(dd.get("data", ("?",)))
-                        if ev[0] == "field" and ev[2] == "events" and is_ok_pr(ev[1]):
-                            n += 1
-                            ok = dv[0] == "call" and dv[1] == "wasm::encode_response_data" and peel(dv[2][0])[0] == "field" and peel(dv[2][0])[2] == "data" and \
-                                same_origin(peel(dv[2][0])[1], ev[1])
-                            ctx.ob(R, key, "returned-response-has-wrapped-data@%d" % st["line"], ok,
-                                   "Ok(..) returns a processed response whose data is not exactly wrapped once: %s" % fmt(pay)[:160], fn=f,
-                                   line=st["line"], sample="Ok(AppResponse{events, data: encode_response_data(data)})")
-                    elif is_ok_pr(pay):
-                        n += 1
-                        ok = pay[0] == "upd" and any(p == ("data",) and contains(v, lambda x: x[0] == "call" and x[1] == "wasm::encode_response_data")
-                                                     for p, v in pay[2]) and \
-                            all(p == ("data",) for p, v in pay[2])
-                        ws = _data_writes(P, f, is_ok_pr, "wasm::encode_response_data")
-                        ok = ok and any(cfg_of(f).site_dominates(w, (bid, i)) for w in ws)
-                        ctx.ob(R, key, "returned-response-has-wrapped-data@%d" % st["line"], ok,
-                               "Ok(..) returns a processed response whose data is not exactly wrapped once: %s" % fmt(pay)[:160], fn=f,
-                               line=st["line"], sample="Ok(x with data: encode_response_data(..))")
-        ctx.ob(R, key, "two-wrapped-returns", n == 2, "expected 2 wrapped returns, found %d" % n, fn=f, sample="2")
-    # encode_response_data maps only Some(data)
-    ek = "wasm::encode_response_data"
-    e = ctx.need_fn(R, ek)
-    if e is not None:
-        ret = peel(P.ret(e))
-        # `data.map(encode)` or `match data { Some(d) => Some(encode(d)), None => None }`: same alternatives
-        al = [peel(x) for x in alts(ret)]
-        somes = [x for x in al if x[0] == "agg" and x[1].endswith("Option::Some")]
-        nones = [x for x in al if x[0] == "agg" and x[1].endswith("Option::None")]
-        ok = len(somes) >= 1 and len(nones) == 1 and len(al) == len(somes) + 1 and all(
-            contains(x[2][0][1], lambda y: y[0] == "some" and is_param(y[1], "data")) for x in somes)
-        ctx.ob(R, ek, "only-present-data-is-wrapped", ok, "encode_response_data returns %s" % fmt(ret)[:100], fn=e,
-               sample="data.map(encode)")
+            line = f.blocks[bid]["stmts"][i]["line"] if i != "t" else f.blocks[bid]["term"].get("line", 0)
+            raw = o[2][0][1]
+            while raw[0] == "vp":
+                raw = raw[2]
+            pay = peel(raw)
+            if pay[0] == "agg" and pay[1].startswith("executor::AppResponse"):
+                dd = dict(pay[2])
+                ev = peel(dd.get("events", ("?",)))
+                if ev[0] == "field" and ev[2] == "events" and is_ok_pr(ev[1]):
+                    n += 1
+                    ok = wrapped(dd.get("data", ("?",)), ev[1])
+                    ctx.ob(R, key, "returned-response-has-wrapped-data@%d" % line, ok,
+                           "Ok(..) returns a processed response whose data is not exactly wrapped once: %s" % fmt(pay)[:160], fn=f,
+                           line=line, sample="Ok(AppResponse{events, data: data.map(execute-response envelope)})")
+            elif is_ok_pr(raw) or is_ok_pr(pay):
+                n += 1
+                base = raw
+                while base[0] == "upd":
+                    base = base[1]
+                    while base[0] == "vp":
+                        base = base[2]
+                ok = raw[0] == "upd" and all(p == ("data",) for p, v in raw[2]) and len(raw[2]) == 1 and wrapped(raw[2][0][1], base)
+                ctx.ob(R, key, "returned-response-has-wrapped-data@%d" % line, ok,
+                       "Ok(..) returns a processed response whose data is not exactly wrapped once: %s" % fmt(raw)[:160], fn=f,
+                       line=line, sample="Ok(x with data: x.data.map(execute-response envelope))")
+        ctx.ob(R, key, "two-wrapped-returns", n == 2, "expected 2 wrapped returns (Execute, Migrate), found %d" % n, fn=f, sample="2")
     # instantiate: data = Some(instantiate_response(res.data, &contract_addr))
     key = W + "process_wasm_msg_instantiate"
     f = ctx.need_fn(R, key)
